@@ -152,6 +152,9 @@ class Prog:
     def set_origin_ref(self, obj, v):
         self.steps.append({'op': 'set', 'obj': obj, 'part': 'origin_reference', 'v': v})
 
+    def set_sul(self, fid, field, v):
+        self.steps.append({'op': 'set_sul', 'fid': fid, 'field': field, 'v': v})
+
     def rename(self, obj, name):
         self.steps.append({'op': 'set', 'obj': obj, 'part': 'name', 'v': name})
 
